@@ -191,6 +191,10 @@ def make_interp(run, base_it, log, device=None, modular=False):
         return None
 
     def binop(it, op, a, b):
+        # struct.pack('<B', c) + struct.pack('<I', a): with an explicit byte order there is no padding, the concatenation is
+        # the packing of the concatenated format
+        if op is ast.Add and isinstance(a, Packed) and isinstance(b, Packed) and a.fmt[:1] in '<>!=' and a.fmt[:1] == b.fmt[:1]:
+            return Packed(a.fmt + b.fmt[1:], list(a.values) + list(b.values), it.binop(ast.Add, a.length, b.length))
         # firmware + b'..' * n  /  firmware + padding
         if op is ast.Add and all(isinstance(x, (W.SymSized, bytes, I.SymRepeat)) for x in (a, b)):
             la, lb = I._b_len(it, [a], {}) if not isinstance(a, W.SymSized) else a.length, I._b_len(it, [b], {}) if not isinstance(b, W.SymSized) else b.length
@@ -535,7 +539,7 @@ def obligations_cli(ctx, base_it, env):
                         goal = z3.And(stt == last_addr - BASE, spt == stt + 1024, spt <= fl, fl % 1024 == 0, fl >= n, fl - n < 1024)
                     ctx.add(Obligation('dfu.cli_main/path%d/C18-%s%d-chunk-is-the-page-of-the-padded-image-at-the-address-set' % (i, loop[0], loop[1]),
                                        list(p.pc[:x[5]]), goal, 'INT', func='dfu.cli_main', kind='effect', cover=False,
-                                       meta={'replay': ('dfu', {'props': ['C18']}), 'props': ['C18'],
+                                       meta={'replay': ('dfu', {'props': ['C18']}), 'props': ['C18'], 'unrecognised': z3.is_false(goal),
                                              'what': 'the chunk written is not the 1024 bytes of the zero-padded image at the address just set'}))
         # both loops range over the same pages, starting with the first: the pages erased are the pages written
         rngs = p.notes.get('ranges', {})
